@@ -196,7 +196,7 @@ def run(job):
             return u
 
         def invalid(i):
-            kind = rng.randrange(17)
+            kind = rng.randrange(18)
             lin = [t for t in types if t.ref_unit is not None]
             snap = snapshot()
             sym = f"{tag}x{i}"
@@ -279,6 +279,21 @@ def run(job):
                     snap = snapshot()
                     sym = gen
                     QuantityMeta(f"{tag}X{i}", (Quantity,), {}, define_as=a ** e)
+                elif kind == 17 and lin:
+                    # quantity of a *subclassed* type (a base type of its own,
+                    # with its own reference unit) as definition: it is an
+                    # instance of the parent class, but denotes another dimension
+                    base_t = [t for t in lin if t._definition is None
+                              and t._quantum is None]
+                    if not base_t:
+                        return
+                    a = rng.choice(base_t)
+                    sub = QuantityMeta(f"{tag}S{i}", (a,), {},
+                                       ref_unit_symbol=f"{tag}s{i}")
+                    types.append(sub)
+                    units.append(sub.ref_unit)
+                    snap = snapshot()
+                    a.new_unit(sym, define_as=5 * sub.ref_unit)
                 else:
                     return
                 job.case("rejected/raises", (kind, sym), False, "accepted",
